@@ -68,11 +68,17 @@ func NewBundleDescriptorFromBundle(b bpv7.Bundle, store *storage.Store) BundleDe
 
 // Sync this BundleDescriptor to the store.
 func (descriptor BundleDescriptor) Sync() error {
-	if !descriptor.store.KnowsBundle(descriptor.Id.Scrub()) {
-		return descriptor.store.Push(*descriptor.bndl)
-	} else if bi, err := descriptor.store.QueryId(descriptor.Id.Scrub()); err != nil {
+	// A new bundle is stored together with its metadata, in particular with its reception timestamp.
+	isNew := !descriptor.store.KnowsBundle(descriptor.Id.Scrub())
+	if isNew {
+		if err := descriptor.store.Push(*descriptor.bndl); err != nil {
+			return err
+		}
+	}
+
+	if bi, err := descriptor.store.QueryId(descriptor.Id.Scrub()); err != nil {
 		return err
-	} else if len(descriptor.Constraints) == 0 {
+	} else if len(descriptor.Constraints) == 0 && !isNew {
 		return descriptor.store.Delete(descriptor.Id)
 	} else {
 		bi.Pending = !descriptor.HasConstraint(ReassemblyPending_) &&
